@@ -162,6 +162,7 @@ def generator_rules(ctx, fv, tab):
               "emits Some((fval, rval)) only under len == ksize (%d emitting path(s))" % n_emit,
               "an emitting path does not return Some((fval, rval)) under the guard `len == ksize`",
               line_of(bad_emit) if bad_emit else line_of(loop))
+    symbolic_rules(ctx, fv, iter_root, loop)
     ctx.check("C01.S2", "next:saturate", bad_sat is None,
               "len -= 1 exactly once on every emitting path",
               "when len reaches ksize it must be decremented exactly once before emitting",
@@ -187,3 +188,49 @@ def bits_rule(ctx):
                           "digit mask 3", "digit extracted with mask %s; one base is 2 bits (mask 3)" % n["r"]["v"],
                           line_of(n))
     ctx.floor("C01.B", 8)   # at least the register updates and codec loops; the exact count is not an invariant
+
+
+
+def symbolic_rules(ctx, fv, iter_root, loop):
+    """S5: every byte that is not classified clean resets the run: on each symbolic path of one iteration that
+    consumes a byte, either the clean test holds, or len becomes 0, nothing is emitted and no register picks
+    up bits (unchanged or zeroed).  A shortcut that skips a byte without resetting builds k-mers across it."""
+    from ..core import sym_paths
+    from .minimiser import clean_polarity
+    try:
+        paths = sym_paths(fv, iter_root)
+    except TooManyPaths:
+        ctx.fail("C01.S5", "next:paths", "too many paths", line_of(loop))
+        return
+    bad = None
+    n_other = 0
+    for sp in paths:
+        if any(exhaustion_verdict(t, pol) is True for t, pol, _ in sp.conds):
+            continue
+        clean = False
+        for t, pol, _ in sp.conds:
+            if t[0] == "bin" and t[1] in ("<", "<=", "==", "!=") and contains(t, lambda s_: s_ == class_term(TABLE)) \
+                    and (t[2][0] == "lit" or t[3][0] == "lit"):
+                if clean_polarity(t, pol):
+                    clean = True
+        if clean:
+            continue
+        # the property quantifies over k >= 1: a path that needs ksize == 0 is outside it
+        if any(pol and t in (mk_bin("==", SF("ksize"), L(0)),) for t, pol, _ in sp.conds):
+            continue
+        n_other += 1
+        ln = sp.state.get(SF("len"), SF("len"))
+        fval, rval = sp.state.get(SF("fval"), SF("fval")), sp.state.get(SF("rval"), SF("rval"))
+        emitted = sp.ret is not None and some_of(sp.ret) is not None
+        if ln != L(0):
+            bad = ("a byte that is not classified as a clean base leaves `len` = %s (path: %s); it must reset the run "
+                   "(len = 0), otherwise k-mers are produced across that byte"
+                   % (show(ln), "; ".join(("" if p else "!") + show(t)[:60] for t, p, _ in sp.conds[-2:])), sp)
+        elif emitted:
+            bad = ("an item is emitted on a path where the byte is not clean", sp)
+        elif fval not in (SF("fval"), L(0)) or rval not in (SF("rval"), L(0)):
+            bad = ("the registers are updated on a path where the byte is not clean (fval' = %s, rval' = %s): class 4 "
+                   "leaves stray bits that reach later k-mers" % (show(fval)[:80], show(rval)[:80]), sp)
+    ctx.check("C01.S5", "next:non_clean_byte_resets", bad is None and n_other >= 1,
+              "on all %d non-clean paths: len = 0, nothing emitted, registers untouched" % n_other,
+              bad[0] if bad else "no path for a non-clean byte found", line_of(loop))
